@@ -26,11 +26,15 @@ BUDGET_S = {'quick': 40, 'thorough': 540}
 FLOORS = {'quick': {'pairs': 1900, 'pixels_judged': 10000000, 'single_layer_requests': 900, 'combined_requests_observed': 270,
                     'pruned_requests_observed': 160, 'opacity_layers': 800, 'colorkey_layers': 450, 'clip_layers': 270,
                     'group_requests': 320, 'cache_layers': 400, 'alpha_judged': 750, 'res_hidden_layers': 700,
-                    'fmt_png8': 240, 'fmt_jpeg': 240, 'fmt_tiff': 270, 'concurrent_rounds': 80, 'concurrent_responses_compared': 6000},
+                    'fmt_png8': 240, 'fmt_jpeg': 240, 'fmt_tiff': 270, 'concurrent_rounds': 80, 'concurrent_responses_compared': 6000,
+                    'auth_requests': 150, 'auth_requests_with_denied_layer': 80, 'auth_requests_with_limited_layer': 80,
+                    'auth_requests_limiting_a_polygon_clipped_layer': 25},
           'thorough': {'pairs': 11000, 'pixels_judged': 65000000, 'single_layer_requests': 5600,
                        'combined_requests_observed': 1900, 'pruned_requests_observed': 780, 'opacity_layers': 4000,
                        'colorkey_layers': 3200, 'clip_layers': 2000, 'group_requests': 2000, 'cache_layers': 2900,
-                       'alpha_judged': 4900, 'res_hidden_layers': 3800, 'fmt_png8': 1700, 'fmt_jpeg': 1600, 'fmt_tiff': 1600}}
+                       'alpha_judged': 4900, 'res_hidden_layers': 3800, 'fmt_png8': 1700, 'fmt_jpeg': 1600, 'fmt_tiff': 1600,
+                       'auth_requests': 700, 'auth_requests_with_denied_layer': 450, 'auth_requests_with_limited_layer': 350,
+                       'auth_requests_limiting_a_polygon_clipped_layer': 120}}
 RULE = ("case = one generated configuration (3-7 direct WMS sources, 0-2 png caches, 3-8 named layers incl. groups) with "
         "8-12 GetMap requests of 1-5 layers; every request is issued against the plain and the defeated twin "
         "configuration (= one pair) and both answers are compared with the reference composition and with each other. "
@@ -394,13 +398,16 @@ def res_visible(obj, res):
     return True
 
 
-def draw_items(spec, layer_names, res, notes=None):
+def draw_items(spec, layer_names, res, notes=None, denied=(), owners=None):
     """ordered list of (item id, via) that the configuration says is drawn for LAYERS=layer_names at resolution res;
-    notes (a set) receives 'layer_res_hidden' / 'group_layer_res_hidden' when a layer's own min/max_res hides it"""
+    notes (a set) receives 'layer_res_hidden' / 'group_layer_res_hidden' when a layer's own min/max_res hides it;
+    layers named in `denied` (authorization) are left out; owners (a list) receives the layer name of every item"""
     byname = {node['name']: node for node, par in walk(spec['tree'])}
     out = []
 
     def add(node, via):
+        if node['name'] in denied:
+            return
         if node.get('sources'):
             # a layer with own sources draws these (they replace the children's); its min/max_res applies
             if not res_visible(node, res):
@@ -410,6 +417,8 @@ def draw_items(spec, layer_names, res, notes=None):
             multi = len(node['sources']) > 1
             for it in node['sources']:
                 out.append((it, via + (('group_own',) if node.get('layers') else ()) + (('multi_src',) if multi else ())))
+                if owners is not None:
+                    owners.append(node['name'])
             return
         for ch in node.get('layers', []):
             add(ch, via + ('group_kids',))
@@ -469,8 +478,9 @@ def source_picture(s, bbox, size, res):
     return f, dc, feats, 1
 
 
-def reference(spec, req):
-    """reference composition for one request: dict(exp F-image, dc mask, steps, feats, items, direct_names)"""
+def reference(spec, req, denied=(), limits=None):
+    """reference composition for one request: dict(exp F-image, dc mask, steps, feats, items, direct_names);
+    denied = layer names the authorization removes, limits = {layer name: rect in the request SRS} it clips to"""
     bbox, size = req['bbox'], req['size']
     res = (bbox[2] - bbox[0]) / float(size[0])
     srcs = {s['id']: s for s in spec['sources']}
@@ -482,7 +492,8 @@ def reference(spec, req):
     steps = 0
     direct_names = []        # upstream layer names of direct sources that are drawn (for pruning observation)
     drawn = 0
-    for it, via in draw_items(spec, req['layers'], res, feats):
+    owners = []
+    for k_, (it, via) in enumerate(draw_items(spec, req['layers'], res, feats, denied=denied, owners=owners)):
         if it in srcs:
             f, d, ft, st = source_picture(srcs[it], bbox, size, res)
             if f is not None and 'cov_touch' not in ft:
@@ -512,6 +523,14 @@ def reference(spec, req):
         feats |= ft
         if f is None:
             continue
+        if limits and owners[k_] in limits:
+            rect = limits[owners[k_]]
+            pw = (bbox[2] - bbox[0]) / float(w)
+            inner = compose.bbox_mask(bbox, size, (rect[0] + 1.5 * pw, rect[1] + 1.5 * pw, rect[2] - 1.5 * pw, rect[3] - 1.5 * pw))
+            outer = compose.bbox_mask(bbox, size, (rect[0] - 1.5 * pw, rect[1] - 1.5 * pw, rect[2] + 1.5 * pw, rect[3] + 1.5 * pw))
+            f = compose.apply_mask(f, compose.bbox_mask(bbox, size, rect))
+            d = d | (outer & ~inner)
+            feats.add('auth_limited')
         drawn += 1
         steps += st
         dc |= d
@@ -951,10 +970,140 @@ def run_case(run, case):
                 break
             one_request(run, case, spec, scp, sct, req, d)
             done.append(req)
-        if done and (case['i'] % 2 == 0 or run.replaying):
+        if done and (case['i'] % 2 == 0 or run.replaying) and not case.get('auth_plan'):
             concurrent_phase(run, case, spec, scp, done)
+        if done:
+            auth_phase(run, case, spec, scp, done, plan=case.get('auth_plan'),
+                       only_polyclip=(case['i'] % 2 == 0 and not case.get('auth_plan')))
     finally:
         shutil.rmtree(d, ignore_errors=True)
+
+
+def implicit_layers(spec, req, res):
+    """names of the layers that are drawn for this request without being named in it (children of requested groups)"""
+    owners = []
+    draw_items(spec, req['layers'], res, owners=owners)
+    seen = []
+    for o in owners:
+        if o not in req['layers'] and o not in seen:
+            seen.append(o)
+    return seen
+
+
+def auth_phase(run, case, spec, scp, reqs, plan=None, only_polyclip=False):
+    """authorization removes or clips layers AFTER the service decided what to draw: the picture must be the composition
+    of what the client is allowed to see - a layer that was skipped because it lies under an opaque one has to come back
+    when the opaque one is denied or clipped. Only layers that are requested implicitly (through a group) are denied:
+    an explicitly requested denied layer is a 403 by design."""
+    rng = run.rng('auth', case['i'])
+    srcs_ = {s_['id']: s_ for s_ in spec['sources']}
+    polyclip = set(node['name'] for node, par in walk(spec['tree'])
+                   if any(it in srcs_ and srcs_[it].get('cov') and srcs_[it]['cov']['kind'] == 'poly' and srcs_[it]['cov']['clip']
+                          for it in node.get('sources', [])))
+    for ri, req in enumerate(reqs):
+        res = (req['bbox'][2] - req['bbox'][0]) / float(req['size'][0])
+        cand = implicit_layers(spec, req, res)
+        if not cand:
+            continue
+        if plan is not None:
+            if ri >= len(plan) or plan[ri] is None:
+                continue
+            denied, limits = list(plan[ri]['denied']), dict(plan[ri]['limits'])
+        else:
+            denied, limits = [], {}
+            for nm in cand:
+                r = rng.random()
+                b = req['bbox']
+                wx, wy = b[2] - b[0], b[3] - b[1]
+                if nm in polyclip:
+                    # a layer with a clipping polygon of its own: limit it to (nearly) the whole request
+                    if r < 0.75:
+                        limits[nm] = [b[0] - wx * rng.uniform(0.0, 0.2), b[1] - wy * rng.uniform(0.0, 0.2),
+                                      b[2] + wx * rng.uniform(-0.3, 0.2), b[3] + wy * rng.uniform(-0.3, 0.2)]
+                elif r < 0.35:
+                    denied.append(nm)
+                elif r < 0.6:
+                    x0 = b[0] + wx * rng.uniform(-0.1, 0.6)
+                    y0 = b[1] + wy * rng.uniform(-0.1, 0.6)
+                    limits[nm] = [x0, y0, x0 + wx * rng.uniform(0.2, 0.7), y0 + wy * rng.uniform(0.2, 0.7)]
+            if not denied and not limits:
+                continue
+            if only_polyclip and not any(nm in polyclip for nm in limits):
+                continue
+
+        def authorize(service, layers=[], environ=None, **kw):
+            out = {}
+            for nm in layers:
+                if nm in denied:
+                    out[nm] = {'map': False}
+                elif nm in limits:
+                    out[nm] = {'map': True, 'limited_to': {'geometry': list(limits[nm]), 'srs': SRS}}
+                else:
+                    out[nm] = {'map': True}
+            return {'authorized': 'partial', 'layers': out}
+
+        def app(environ, start_response):
+            environ['mapproxy.authorize'] = authorize
+            return scp.app(environ, start_response)
+        ref = reference(spec, req, denied=denied, limits=limits)
+        up = upstream.UP
+        up.reset_log()
+        try:
+            r = scenario.wsgi_get(app, getmap_path(req, False))[0]
+        except Exception as ex:
+            run.violation({'clause': 'authorized_composition', 'problem': 'exception', 'exc': type(ex).__name__},
+                          {'i': case['i'], 'spec': spec, 'requests': reqs, 'auth_plan': None},
+                          'request with authorization raised %r' % (ex,))
+            return
+        names = call_names(list(up.log))
+        up.reset_log()
+        run.hit('auth_requests')
+        if denied:
+            run.hit('auth_requests_with_denied_layer')
+        if limits:
+            run.hit('auth_requests_with_limited_layer')
+        if 'auth_limited' in ref['feats'] and 'clip_poly' in ref['feats']:
+            run.hit('auth_requests_limiting_a_polygon_clipped_layer')
+        if r.code != 200 or not r.content_type.startswith('image/'):
+            problem, txt = 'no_image', 'HTTP %s %s %s' % (r.code, r.content_type, r.body[:200].decode('utf-8', 'replace'))
+            ok = False
+        else:
+            u8 = compose.to_u8(compose.from_pil(r.image()))
+            tol = 2 + max(ref['steps'], len(req['layers']))
+            ok, txt, st = compare(u8, ref['exp'], ~ref['dc'], req, tol)
+            problem = 'picture'
+        run.judge(('auth', len(denied), len(limits), req['format'], bool(req['transparent'])), nontrivial=ref['drawn'] > 0)
+        run.hit('pixels_judged', int((~ref['dc']).sum()))
+        if ok:
+            continue
+        # same vocabulary as the plain phase, computed for the permitted composition
+        flat = set(x for n in names for x in n)
+        combined = any(len(n) > 1 for n in names)
+        pruned = [n for n in ref['direct_names'] if n not in flat] if problem == 'picture' else []
+        n_cache_items = sum(1 for it, via in draw_items(spec, req['layers'], res, denied=denied)
+                            if it.startswith('c') and not it.startswith('cs'))
+        direct_calls = len([n for n in names if not any(x in cache_up_names(spec) for x in n)])
+        if combined:
+            shortcut = 'combined+pruned' if pruned else 'combined'
+        elif pruned:
+            shortcut = 'pruned'
+        elif direct_calls + n_cache_items <= 1:
+            shortcut = 'single'
+        else:
+            shortcut = 'none'
+        feats = sorted(f for f in ref['feats'] if f not in SILENT_FEATS)
+        plan_out = [None] * len(reqs)
+        plan_out[ri] = {'denied': denied, 'limits': limits}
+        run.violation({'clause': 'authorized_composition', 'problem': problem, 'denied': bool(denied), 'limited': bool(limits),
+                       'shortcut': shortcut, 'features': '+'.join(feats) or 'none', 'n_drawn': ref['drawn'],
+                       'transparent': bool(req['transparent']), 'lossless': req['format'] in ('png', 'tiff')},
+                      {'i': case['i'], 'spec': spec, 'requests': reqs, 'auth_plan': plan_out},
+                      'LAYERS=%s with authorization (denied %r, limited %r): answer is not the composition of the permitted '
+                      'layers: %s; upstream layers asked: %r, permitted direct layers not asked: %r; drawn without '
+                      'authorization: %r' % (
+                          ','.join(req['layers']), denied, limits, txt, sorted(flat), pruned,
+                          [list(x) for x in draw_items(spec, req['layers'], res)]))
+        return
 
 
 def concurrent_phase(run, case, spec, scp, reqs):
